@@ -44,6 +44,7 @@ type Step struct {
 	Role  string `json:"role"`
 	NewC  bool   `json:"newc"`  // the model created connection C for this Tell/Ask
 	Async bool   `json:"async"` // issue the call and go on with the script; "join" collects it
+	Extra string `json:"extra"` // QUIC: key inside one additional, UNPROVEN certificate of M's chain ("-": none)
 }
 
 type ExpRec struct {
@@ -117,11 +118,11 @@ type world interface {
 	// MHello / MFinish are the two halves of a P2PKE handshake attempt of M as initiator.
 	MHello(c int, k, proof string) string
 	MFinish(c int) string
-	MListen(k, proof string)
+	MListen(k, proof, extra string)
 	// BindAnswer ties the model's connection c to the connection peer most recently opened to M.
 	BindAnswer(c int, peer string)
 	MDial(c int, t string) string
-	MPresent(c int, k, proof string) string
+	MPresent(c int, k, proof, extra string) string
 	MAuth(c int, steps []Step) (string, [][]string)
 	// MUsed reports whether M has something to write into (has) and the key whose private half M used there.
 	MUsed(c int, role, peer string) (used string, has bool)
@@ -268,7 +269,19 @@ func (r *run) afterSend(p int, e ExpRec) {
 func execute(b *Behaviour) []Event {
 	r := &run{b: b, got: map[int]int{}, seen: map[int]int{}, srcs: map[string]savedSrc{}}
 	r.cond = sync.NewCond(&r.mu)
-	holds := map[string][]string{"A": {"A"}, "B": {"B"}, "M": {"M"}}
+	// "Me" is M's second key pair (ECDSA): its own, but of an algorithm the swarms' registry cannot load.
+	// Whitelists are sets of NODES: one that admits M admits both of M's identities.
+	holds := map[string][]string{"A": {"A"}, "B": {"B"}, "M": {"M", "Me"}}
+	wl := map[string][]string{}
+	for n, ks := range b.Wl {
+		wl[n] = append([]string{}, ks...)
+		for _, k := range ks {
+			if k == "M" {
+				wl[n] = append(wl[n], "Me")
+			}
+		}
+	}
+	b.Wl = wl
 	r.emit(Event{Ev: "init", Kind: b.Kind, Family: b.Family, Wl: b.Wl, Holds: holds})
 	var w world
 	var err error
@@ -362,14 +375,14 @@ func execute(b *Behaviour) []Event {
 			res := w.MFinish(st.C)
 			r.emit(Event{Ev: "step", A: "finish", Res: res})
 		case "mlisten":
-			w.MListen(st.K, st.Proof)
-			r.emit(Event{Ev: "step", A: "mlisten", X: st.K, Res: st.Proof})
+			w.MListen(st.K, st.Proof, st.Extra)
+			r.emit(Event{Ev: "step", A: "mlisten", X: st.K, Res: st.Proof + " +" + st.Extra})
 		case "mdial":
 			res := w.MDial(st.C, st.T)
 			r.emit(Event{Ev: "step", A: "mdial", T: st.T, Res: res})
 		case "present":
-			res := w.MPresent(st.C, st.K, st.Proof)
-			r.emit(Event{Ev: "step", A: "present", X: st.K, Res: st.Proof + ": " + res})
+			res := w.MPresent(st.C, st.K, st.Proof, st.Extra)
+			r.emit(Event{Ev: "step", A: "present", X: st.K, Res: st.Proof + " +" + st.Extra + ": " + res})
 		case "query", "signed":
 			j := i
 			for j+1 < len(b.Hist) && (b.Hist[j+1].A == "query" || b.Hist[j+1].A == "signed") && b.Hist[j+1].C == st.C {
